@@ -18,9 +18,10 @@ from asyncio import CancelledError
 import core
 import tiegen
 
-DRIVERS = [("lock", "Lock")]
+DRIVERS = [("lockentry", "LockEntry")]
 
-OPS = {"AcqBegin": 0, "AcqNowait": 1, "Release": 2, "Resume": 3, "Cancel": 4}
+OPS = {"AcqBegin": 0, "AcqNowait": 1, "Release": 2, "Resume": 3, "Cancel": 4, "EnterCancelled": 7, "SpinCancel": 8,
+       "SpinReturn": 9}
 OPN = {v: k for k, v in OPS.items()}
 
 
@@ -91,14 +92,15 @@ class LockRun:
             if t in self.ended:
                 continue
             if t in self.spinning:
-                en.append((8, t))           # only the delivery + resumption of the cancelled-entry acquire
+                en.append((8, t))           # the cancellation is delivered: the call raises
+                en.append((9, t))           # the check returns after its yield (a shield was raised meanwhile, F46/F53)
                 continue
             if p.at_decision:
                 en += [(0, t), (1, t), (2, t)]
                 if len(self.ended) < len(self.world.puppets) - 2:
                     en.append((6, t))
-                if self.observe() == [0, 0, 0] and not self.spinning:
-                    en.append((7, t))       # acquire() of a free lock inside an already cancelled scope
+                if not self.spinning:
+                    en.append((7, t))       # acquire() inside an already cancelled scope, whatever the lock's state
             else:
                 if self.world.runnable(p):
                     en.append((3, t))
@@ -145,26 +147,32 @@ class LockRun:
                 self.mon.append(f"the end of task {t} changed the lock state {before} -> {self.observe()}")
             return
         elif c == 7:
-            # harness-only (no model op): acquire() of a FREE lock in an already cancelled scope.  The call sits in
-            # checkpoint_if_cancelled() until the cancellation is delivered (op 8); meanwhile other tasks act.  Nothing
-            # about the lock may change: it is not claimed, nobody queues behind a tentative claim.
+            # model op EnterCancelled: acquire() in an already effectively cancelled scope, whatever the lock's state.
+            # Since F53 the call sits in checkpoint_if_cancelled() on BOTH paths until the cancellation is delivered
+            # (op 8) or the check returns because the cancelled scope stopped being visible (op 9); meanwhile other
+            # tasks act.  Nothing about the lock may change.
             CancelScope = self.anyio.CancelScope
 
             async def cmd(p):
-                with CancelScope() as sc:
-                    sc.cancel()
-                    await lock.acquire()
-                if sc.cancelled_caught:
-                    raise CancelledError("absorbed by the call's own scope")
+                with CancelScope() as outer:
+                    outer.cancel()
+                    with CancelScope() as mid:        # op 9 raises a shield here while the check is yielding
+                        p.sc = mid
+                        await lock.acquire()
+                    p.sc = None
+                if outer.cancelled_caught or mid.cancelled_caught:
+                    raise CancelledError("absorbed by the call's own scopes")
             out = w.act(t, cmd)
             self.flags.add("acquire_in_cancelled_scope")
+            if before != [0, 0, 0]:
+                self.flags.add("acquire_in_cancelled_scope_contended")
             if out is not None and out[0] == "blocked":
                 self.spinning.add(t)
             if self.observe() != before:
                 self.mon.append(f"acquire() by task {t} in an already cancelled scope changed the lock state {before} -> {self.observe()} before raising")
-            return
         elif c == 8:
-            # deliver the pending cancellation (every non-task callback in the ready queue) and let the task run
+            # model op SpinCancel: deliver the pending cancellation (every non-task callback in the ready queue) and
+            # let the task run
             p = w.puppets[t]
             for h in list(w.loop.ready_handles()):
                 if not isinstance(getattr(h._callback, "__self__", None), asyncio.Task):
@@ -180,14 +188,26 @@ class LockRun:
             self.spinning.discard(t)
             if not p.at_decision:
                 self.mon.append(f"acquire() by task {t} in an already cancelled scope was not interrupted within 6 cycles")
-                return
-            if code_of(out) != 2:
+            elif code_of(out) != 2:
                 self.mon.append(f"acquire() by task {t} in an already cancelled scope ended with {out} instead of the cancellation")
-            if t in self.holders or self.observe()[1] == t:
+            if before[1] != t and (t in self.holders or self.observe()[1] == t):
                 self.mon.append(f"acquire() by task {t} in an already cancelled scope left the task holding the lock")
-            if self.observe()[0] == 0 and self.observe()[2] > 0:
-                self.mon.append(f"after the cancelled acquire() of task {t}: free lock with {self.observe()[2]} waiting tasks")
-            return
+            if self.observe() != before:
+                self.mon.append(f"the cancelled acquire() of task {t} changed the lock state {before} -> {self.observe()}")
+        elif c == 9:
+            # model op SpinReturn: while the check yields, another task shields the scope between the caller and the
+            # cancelled one: the cancellation is no longer visible, the delivery finds nobody, the check returns and
+            # acquire() goes on as an ordinary call - on the lock as it is NOW
+            p = w.puppets[t]
+            p.sc.shield = True
+            for h in list(w.loop.ready_handles()):
+                if not isinstance(getattr(h._callback, "__self__", None), asyncio.Task):
+                    w.loop.run_handle(h)
+            out = w.resume(t)
+            self.spinning.discard(t)
+            self.flags.add("check_yielded_and_returned")
+            if before[0] == 1 or before[2] > 0:
+                self.flags.add("check_returned_to_contended_lock")
         elif c == 3:
             out = w.resume(t)
         elif c == 5:
@@ -215,8 +235,8 @@ class LockRun:
 
     # -- property monitors on the observable history (independent of the model) --
     def monitor(self, c, t, k, before, after):
-        acquired = (c in (0, 1, 3)) and k == 0
-        if c == 0 and k == 1 and before[0] == 1 or (c == 0 and k == 1 and before[2] > 0):
+        acquired = (c in (0, 1, 3, 9)) and k == 0
+        if c in (0, 9) and k == 1 and (before[0] == 1 or before[2] > 0):
             # really waiting (contended) - as opposed to the uncontended shielded yield
             if before[0] == 1 or before[2] > 0:
                 self.waitq.append(t)
@@ -231,12 +251,12 @@ class LockRun:
                 self.mon.append(f"mutual exclusion: acquire returned to {t} while {sorted(self.holders)} hold")
             if after[1] != t:
                 self.mon.append(f"acquire returned to {t} but owner is {after[1]}")
-            if c in (0, 1) and before[2] > 0:
+            if c in (0, 1, 9) and before[2] > 0:
                 self.mon.append(f"barging: uncontended-path acquisition by {t} with {before[2]} waiters queued")
-            if c in (0, 1) and before[0] == 1:
+            if c in (0, 1, 9) and before[0] == 1:
                 self.mon.append(f"acquisition by {t} of a locked lock")
             self.holders.add(t)
-        if c == 0 and k == 1 and before[0] == 0 and before[2] == 0:
+        if c in (0, 9) and k == 1 and before[0] == 0 and before[2] == 0:
             self.flags.add("fastpath_yield")
         if c == 3 and t in self.waitq and k in (0, 2, 3):
             self.waitq.remove(t)
@@ -253,7 +273,7 @@ class LockRun:
                 self.holders.discard(t)
             elif k == 3 and t in self.holders:
                 self.mon.append(f"release by holder {t} refused")
-        if c in (0, 1) and k == 3 and t not in self.holders:
+        if c in (0, 1, 9) and k == 3 and t not in self.holders:
             self.mon.append(f"acquire by {t} raised RuntimeError although it does not hold the lock")
         # hand-off order: whenever ownership moves to a queued waiter it must be the first live one
         if after[1] != before[1] and after[1] in self.waitq and after[1] not in self.holders:
@@ -263,6 +283,8 @@ class LockRun:
             if earlier:
                 self.mon.append(f"FIFO: lock handed to {w} while earlier live waiters {earlier} queue")
             self.flags.add("handoff")
+        if self.holders and after[1] not in self.holders and after[1] != 0:
+            self.mon.append(f"two holders: the lock records owner {after[1]} while {sorted(self.holders)} hold it")
         if after[0] == 0 and after[2] > 0:
             self.mon.append(f"free lock with {after[2]} waiting tasks")
         if after[0] == 0 and self.holders:
@@ -270,6 +292,7 @@ class LockRun:
 
     def quiesce(self):
         """Drive every task to its decision point and release everything: the lock must end up pristine."""
+        refused: set[int] = set()
         for _ in range(200):
             progressed = False
             for t, p in self.world.puppets.items():
@@ -283,9 +306,13 @@ class LockRun:
                         self.do(3, t)
                         progressed = True
                 else:
-                    if t in self.holders:
+                    if t in self.holders and t not in refused:
+                        n = len(self.mon)
                         self.do(2, t)
                         progressed = True
+                        if t in self.holders:          # the release was refused (already reported by the monitor)
+                            refused.add(t)
+                            del self.mon[n + 1:]
             if not progressed:
                 blocked = [t for t, p in self.world.puppets.items() if not p.at_decision and t not in self.ended]
                 if not blocked:
@@ -301,6 +328,11 @@ class LockRun:
 def run_script(fast: bool, ntasks: int, flat_ops: list[int], quiesce=True):
     with LockRun(fast, ntasks) as r:
         for i in range(0, len(flat_ops), 2):
+            if (flat_ops[i], flat_ops[i + 1]) not in r.enabled():
+                # a stored script on a tree that behaves differently: stop, the monitors have seen what happened so far
+                r.mon.append(f"stored script: step {i // 2} {(flat_ops[i], flat_ops[i + 1])} cannot be performed "
+                             "(the task's state differs from the recorded run)")
+                break
             r.do(flat_ops[i], flat_ops[i + 1])
         r.enabled_at_end = r.enabled()
         if quiesce:
@@ -312,7 +344,7 @@ def random_case(rng: random.Random, nsteps: int):
     fast = rng.random() < 0.35
     ntasks = rng.choice([2, 3, 3, 4, 5])
     weights = {0: 5, 1: 1.2, 2: 3, 3: 5, 4: rng.choice([0.5, 2, 4]), 5: rng.choice([0.5, 2, 3]), 6: rng.choice([0, 0.15, 0.4]),
-               7: rng.choice([0, 0.6, 1.5]), 8: 1.0}
+               7: rng.choice([0, 0.6, 1.5]), 8: 1.0, 9: rng.choice([0.5, 1.0, 2.0])}
     with LockRun(fast, ntasks) as r:
         for _ in range(nsteps):
             en = r.enabled()
@@ -362,7 +394,7 @@ TIE_HELPERS = {"poploop_handoff": "release_entry / release_loop_body", "exec_rel
 def check(tier: str) -> int:
     rep = core.Report("C09", tier)
     rep.assumptions = core.TRUSTED_BASE_COMMON + [
-        "model prims/Lock.v hand-written from class Lock in _asyncio.py; cancellation modelled as native Task.cancel() on blocked tasks (superset of what AnyIO scope delivery does to a blocked task)",
+        "model prims/Lock.v hand-written from class Lock in _asyncio.py, extended by prims/LockEntry.v with acquire() calls made from an already effectively cancelled scope (ops EnterCancelled / SpinCancel / SpinReturn: the check may yield and return, F46/F53; the run is compared through LockEntry.run_case, codes 0-4 as in Lock.v); cancellation modelled as native Task.cancel() on blocked tasks (superset of what AnyIO scope delivery does to a blocked task)",
         "tie T: tools/translate_lock.py (python ast -> coq/prims/LockGen.v, fail-closed grammar in its docstring) regenerates the segments of Lock.acquire/acquire_nowait/release/locked on every run and prims/LockGenEq.v proves their interpretation (prims/LockImp.v: exec) equal to Lock.step for all states and tasks. Trusted in it: the translator's mapping of Python constructs to LockImp statements, the cutting of acquire() at its awaits into entry/continuation segments, CPython's await/exception semantics at the cut points (which continuation runs, locals persist: LockImp.gstep), and the reading of checkpoint_if_cancelled() at the start of an uncontended acquire as a no-op when the caller's scope is not cancelled (C08 covers the cancelled case). The translator is not the only tie: the same model is co-simulated against the running code below",
     ]
     # tie T: regenerate the segments from the source under test, then rebuild the cone (LockGen, LockGenEq, props/C09);
@@ -372,7 +404,7 @@ def check(tier: str) -> int:
     tie_T["translator"] = "tools/translate_lock.py (python ast -> coq/prims/LockGen.v, fail closed)"
     tie_T["equality_theorems"] = "LockGenEq.v: tie_acquire_entry, tie_acquire_nowait, tie_release, tie_acquire_yield_resumed, tie_acquire_yield_cancelled, tie_acquire_wait_resumed, tie_acquire_wait_cancelled, tie_locked, gstep_eq_step (+ *_spec forms, props C09_tie_*)"
     rep.coverage["tie_T"] = tie_T
-    exe = core.build_driver("lock", "Lock")
+    exe = core.build_driver("lockentry", "LockEntry")
 
     rng = random.Random(core.seed())
     runs = []
@@ -414,12 +446,21 @@ def check(tier: str) -> int:
     idx = list(range(len(cases)))
     rng.shuffle(idx)
     idx = idx[:sample_n]
-    vm_ok, vm_log = core.coq_eval_cases("c09", "Lock", [cases[i] for i in idx], [expected[i] for i in idx])
+    vm_ok, vm_log = core.coq_eval_cases("c09", "LockEntry", [cases[i] for i in idx], [expected[i] for i in idx])
 
     # ---- decide ----
-    for r, msg in monitor_hits[:5]:
-        rep.violation(msg, {"kind": "monitor", "fast": r.fast, "ntasks": r.ntasks, "ops": r.ops, "script": r.script,
-                            "ops_readable": [(OPN[r.ops[i]], r.ops[i + 1]) for i in range(0, len(r.ops), 2)]})
+    # one report per failing run (its first message is the headline), shortest scripts first, distinct headlines first
+    bad_runs = sorted((r for r in runs if r.mon), key=lambda r: len(r.script))
+    seen_heads, picked = set(), []
+    for r in bad_runs:
+        head = "".join(ch for ch in r.mon[0] if not ch.isdigit())
+        if head not in seen_heads:
+            seen_heads.add(head)
+            picked.append(r)
+    for r in picked[:5]:
+        rep.violation(r.mon[0], {"kind": "monitor", "fast": r.fast, "ntasks": r.ntasks, "ops": r.ops, "script": r.script,
+                                 "monitor_messages": r.mon[:8],
+                                 "ops_readable": [(OPN[r.ops[i]], r.ops[i + 1]) for i in range(0, len(r.ops), 2)]})
     tie_broken = []
     if not proofs_ok:
         tie_broken.append("proof obligation: " + str(rep.coverage.get("proof_failure", {}).get("where")))
@@ -462,7 +503,9 @@ def check(tier: str) -> int:
         "samples": [{"fast": runs[i].fast, "ops": [(OPN[runs[i].ops[j]], runs[i].ops[j + 1]) for j in range(0, len(runs[i].ops), 2)][:30],
                      "outs": runs[i].outs[:40]} for i in idx[:2]],
     })
-    for need in ("contended_wait", "cancel_waiter", "handoff", "cancel_after_handoff", "fastpath_yield", "scope_cancel_pending", "scope_cancel_deferred"):
+    for need in ("contended_wait", "cancel_waiter", "handoff", "cancel_after_handoff", "fastpath_yield", "scope_cancel_pending", "scope_cancel_deferred",
+                 "acquire_in_cancelled_scope", "acquire_in_cancelled_scope_contended", "check_yielded_and_returned",
+                 "check_returned_to_contended_lock"):
         if not flags.get(need):
             rep.notes.append(f"generator self-check: predicate {need} never reached")
     return rep.finish()
